@@ -22,7 +22,7 @@ def dispatch_sites(db, fn, d):
     return out
 
 
-def is_effect(st, allow_calls=('htp_log',)):
+def is_effect(st, allow_calls=('htp_log', 'fprintf', 'fprint_raw_data', 'fprint_raw_data_ex', 'fprint_bstr')):      # log and (debug configuration) trace output are not parsing effects
     """does the statement write through a pointer / record or call anything other than allow_calls?"""
     for x in nodes(st):
         if x['k'] == 'assign' and strip(x['l']).get('k') != 'var':
